@@ -37,7 +37,7 @@ type vfDeque struct {
 
 func vfDequeLock(base, nodes, size int32) *vfDeque {
 	q := NewLockQueue(base, nodes, size)
-	toks := make([]*Lock, 16)
+	toks := make([]*Lock, vfDequeToks)
 	for i := range toks {
 		toks[i] = &Lock{}
 	}
@@ -75,7 +75,7 @@ func vfDequeLock(base, nodes, size int32) *vfDeque {
 
 func vfDequeCommand(base, nodes, size int32) *vfDeque {
 	q := NewLockCommandQueue(base, nodes, size)
-	toks := make([]*protocol.LockCommand, 16)
+	toks := make([]*protocol.LockCommand, vfDequeToks)
 	for i := range toks {
 		toks[i] = &protocol.LockCommand{}
 	}
@@ -113,7 +113,7 @@ func vfDequeCommand(base, nodes, size int32) *vfDeque {
 
 func vfDequeManager(base, nodes, size int32) *vfDeque {
 	q := NewLockManagerQueue(base, nodes, size)
-	toks := make([]*LockManager, 16)
+	toks := make([]*LockManager, vfDequeToks)
 	for i := range toks {
 		toks[i] = &LockManager{}
 	}
